@@ -395,23 +395,38 @@ Definition redir0 : redir := mkRedir [] false false false [].
 Definition redir_run (es : list revent) : redir := fold_left redir_step es redir0.
 
 (* ------------------------------------------------------------------------------------------ *)
-(* Asynchronously written redirect targets (process.py _AsyncFileWriter, _StreamWriter, _PipeWriter):
-   received data and EOF are queued; a writer task (or the pipe transport) moves one queued item to the
-   target per turn; SSHProcess.wait_closed(), on which wait()/run()/communicate() rest, returns when the
-   channel is closed AND the cleanup tasks (queue.join() / the pipe's close event) are done. *)
-Record aredir := mkA { a_queue : list wtok; a_target : list wtok; a_chan_closed : bool }.
-Inductive aev := AvData (d : bytes) | AvEof | AvTurn | AvClose.
+(* Asynchronously written redirect targets (process.py _AsyncFileWriter, _StreamWriter, _PipeWriter).
+   Until the writer is attached (create_process / redirect still awaiting connect_write_pipe) received data
+   and EOF stay in the receive buffer; attaching feeds them to the writer (feed_recv_buf).  Data and EOF
+   handed to the writer are queued; a writer task (or the pipe transport) moves one queued item to the target
+   per turn, EOF = the target is closed (e328342: before the queue is reported as joined).
+   SSHProcess.wait_closed(), on which wait()/run()/communicate() rest, returns when the channel is closed AND
+   the cleanup tasks (queue.join() / the pipe's close event) are done; since fb5761c a pipe writer attached
+   after the channel has closed registers its cleanup task too.  [await_done_old] is the code before
+   fb5761c, kept only for the *_old_refuted theorem. *)
+Record aredir := mkA { a_buf : list wtok; a_queue : list wtok; a_target : list wtok;
+                       a_chan_closed : bool; a_att : bool; a_late : bool }.
+Inductive aev := AvData (d : bytes) | AvEof | AvAttach | AvTurn | AvClose.
+
+Definition a_recv (a : aredir) (x : wtok) : aredir :=
+  if a_chan_closed a then a
+  else if a_att a then mkA (a_buf a) (a_queue a ++ [x]) (a_target a) false true (a_late a)
+  else mkA (a_buf a ++ [x]) (a_queue a) (a_target a) false false (a_late a).
 
 Definition astep (a : aredir) (e : aev) : aredir :=
   match e with
-  | AvData d => if a_chan_closed a then a else mkA (a_queue a ++ [TData d]) (a_target a) false
-  | AvEof => if a_chan_closed a then a else mkA (a_queue a ++ [TEof]) (a_target a) false
+  | AvData d => a_recv a (TData d)
+  | AvEof => a_recv a TEof
+  | AvAttach => if a_att a then a
+                else mkA [] (a_queue a ++ a_buf a) (a_target a) (a_chan_closed a) true (a_chan_closed a)
   | AvTurn => match a_queue a with
-              | x :: q => mkA q (a_target a ++ [x]) (a_chan_closed a)
+              | x :: q => mkA (a_buf a) q (a_target a ++ [x]) (a_chan_closed a) (a_att a) (a_late a)
               | [] => a
               end
-  | AvClose => mkA (a_queue a) (a_target a) true
+  | AvClose => mkA (a_buf a) (a_queue a) (a_target a) true (a_att a) (a_late a)
   end.
 
-Definition arun (es : list aev) : aredir := fold_left astep es (mkA [] [] false).
-Definition await_done (a : aredir) : bool := a_chan_closed a && is_nil (a_queue a).
+Definition arun (es : list aev) : aredir := fold_left astep es (mkA [] [] [] false false false).
+(* wait() is called after the target has been attached *)
+Definition await_done (a : aredir) : bool := a_chan_closed a && a_att a && is_nil (a_queue a).
+Definition await_done_old (a : aredir) : bool := a_chan_closed a && a_att a && (is_nil (a_queue a) || a_late a).
